@@ -195,7 +195,7 @@ def main():
         run(chk, 1500)
     else:
         run(chk, 150)
-        if chk.broken() and not chk.spec_failures:
+        if (chk.broken() or chk.anchor_changed) and not chk.spec_failures:
             run(chk, 800)
     chk.finish()
 
